@@ -19,9 +19,17 @@ the same rows survives in `pending` is not determined by the code; the model fix
 Core Lean only.
 -/
 import SsqlVerif.Model.CepNfa
+import SsqlVerif.Generated.Facts
 set_option autoImplicit false
 
 namespace Cep
+
+/-- `types.DefaultMatchWithin` (nanoseconds) and `defaultMaxRunRows`, as the source has them now -/
+def defaultWithin : Int := Facts.types_DefaultMatchWithin
+def defaultMaxRunRows : Nat := Facts.cep_defaultMaxRunRows.toNat
+
+/-- `NewEngine`: `if e.within <= 0 { e.within = types.DefaultMatchWithin }` -/
+def effWithin (w : Int) : Int := if w ≤ 0 then defaultWithin else w
 
 /-- what `NewEngine` fixes for the lifetime of an engine -/
 structure Cfg (ρ : Type) where
